@@ -187,6 +187,8 @@ func runReaderHistory(cs *drv.Case, ops []rOp, spec srcSpec, o readerOpts) (nont
 			p2 *= 2
 		}
 		switch o.capClass {
+		case 4: // (almost) empty slice in front of a power-of-two sized scratch area
+			capa = 4096
 		case 1:
 			capa = p2
 		case 2:
@@ -550,6 +552,9 @@ func randomReaderOps(r *rand.Rand, n int, bigBias bool) []rOp {
 			ops[i].N = r.Intn(9000)
 		case x == 9 && bigBias:
 			ops[i].N = 20000 + r.Intn(60000)
+			if r.Intn(12) == 0 {
+				ops[i].N = []int{1 << 20, 1<<20 + 16, 1<<20 - 1, 3 << 19}[r.Intn(4)]
+			}
 		case x == 10:
 			ops[i].N = 4090 + r.Intn(12)
 		default:
